@@ -59,10 +59,10 @@ ASSUMPTIONS = [
     "the process locale is UTF-8 (LC_ALL=C.UTF-8 set by run_check.py)",
 ]
 BOUND = {
-    "quick": "rows 1..3; quick alphabets (f8 4, i8 4, str 3 + 16 special strings in frames of <= 2 rows, D 3, us 3, ...); "
+    "quick": "rows 1..3; quick alphabets (f8 4, i8 4, str 3 + 29 special strings (incl. text that looks like a missing marker, a number, a boolean, a date) in frames of <= 2 rows, D 3, us 3, ...); "
              "all column pairs of 2-row representatives; 5 formats x 4 suffixes x (csv: 4 sep x 2 header x 3 encodings; json: 3 encodings); "
              "ListOfDicts lists of 1..2 items (csv 1..3) x pickle/json/csv x the same configurations",
-    "thorough": "rows 1..3; thorough alphabets (f8 9, i8 6, str 5 + 27 special strings in frames of <= 3 rows, D 6, us 4/5, ...); "
+    "thorough": "rows 1..3; thorough alphabets (f8 9, i8 6, str 5 + 46 special strings in frames of <= 3 rows, D 6, us 4/5, ...); "
                 "same configurations; ListOfDicts lists of 1..3 items",
 }
 TIME_CAP = {"quick": 300, "thorough": 3000}
@@ -113,6 +113,12 @@ SPECIALS = {
                  '"', " a ", "'", "b\\s", "#c", "\U0001F600", ",", "\n",
                  "e\u0301", "\ufeffx", "x\u2028y", "\u00a0", "x\x85y", "\t", "A", "ａ"],
 }
+# text that looks like a missing marker / a number / a boolean / a date: kept as text by every format that can tell
+# (the CSV space leaves out those that mc/ref/c12_file_ref.csv_text_representable rules out)
+LOOKALIKES = {
+    "quick": ["nan", "None", "NA", "null", "NaT", "true", "1", "1.5", "2020-01-01", "a ", "  "],
+    "thorough": ["nan", "None", "NA", "null", "NaT", "true", "1", "1.5", "2020-01-01", "a ", "  ", "-0", "1e5", "inf", "N/A", "#N/A", "False", "0x10", "1_000"],
+}
 
 KINDS = {
     "pickle": ["f8", "i8", "u1", "b1", "bo", "str", "U", "D", "s", "ms", "us", "obj", "td", "h"],
@@ -144,7 +150,10 @@ def np_array(kind, toks):
 
 
 def build_frame(cols):
-    return di.DataFrame({name: np_array(kind, toks) for name, kind, toks in cols})
+    d = di.DataFrame({name: np_array(kind, toks) for name, kind, toks in cols})
+    form = os.environ.get("MC_ARRAY_FORM")
+    # (provenance: the frame that is written is itself the product of rbind / slice / deepcopy - mc/values.frame_via)
+    return V.frame_via(d, form) if form in V.PROVENANCE else d
 
 
 # ---------------------------------------------------------------------------
@@ -161,7 +170,7 @@ def single_columns(fmt, tier, n):
 def special_columns(tier, n):
     if n > (2 if tier == "quick" else 3):
         return
-    for s in SPECIALS[tier]:
+    for s in SPECIALS[tier] + LOOKALIKES[tier]:
         for toks in itertools.product([None, "a", s], repeat=n):
             if s in toks:
                 yield [[POS_NAMES[0], "str", list(toks)]]
@@ -383,6 +392,10 @@ def shards(tier):
     for sh in list(out):
         if sh["cls"] == "df" and sh["suffix"] == "" and sh["n"] == 2 and sh.get("encoding", "utf-8") == "utf-8" and sh.get("sep", ",") == ",":
             out.append(dict(sh, __env__={"TZ": "America/St_Johns"}))
+    for sh in list(out):
+        if sh["cls"] == "df" and sh["suffix"] == "" and sh["n"] in (2, 3) and sh.get("encoding", "utf-8") == "utf-8" and sh.get("sep", ",") == "," and "__env__" not in sh:
+            for form in (("viarbind",) if tier == "quick" else ("viarbind", "viaslice", "viadeepcopy")):
+                out.append(dict(sh, __env__={"MC_ARRAY_FORM": form}))
     # keyword arguments the JSON writers hand to json.dumps, on data that the chosen encoding can hold only with them
     out.append({"cls": "jsonkw", "tier": tier})
     # forms of the path argument (each format once per form)
